@@ -4,6 +4,7 @@
   and the fields an import reads back from it.  Statements only; proofs in MW/Lemmas/KsCodec*.lean.
 -/
 import MW.Lemmas.KsCodecSpec
+import MW.Lemmas.KsCodecParse
 namespace MW.Props.C04Codec
 open MW MW.Model.KsCodec MW.KsCodecL
 
@@ -80,6 +81,22 @@ theorem import_refuses_bad_params (k : KeystoreJ) (coin : Nat) (hc : k.coin = co
     (ha : k.account = MW.Gen.Keystore.walletUsage) (hl : k.privParams.length ≠ 176) :
     ∃ e, importView k coin = .error e := KsCodecL.import_refuses_bad_params k coin hc ha hl
 
+/-- the exported TEXT determines every field: reading `render k` back (`parseKeystore`: the reader of exactly the text
+    encoding/json writes for these structs; compared with json.Unmarshal on every generated document) gives `k`, for every
+    keystore value whose strings are valid UTF-8 and whose numbers fit their Go types … -/
+theorem exported_text_determines_fields (k : KeystoreJ) (h : KsOk k) : parseKeystore (render k) = some k :=
+  parseKeystore_render k h
+
+/-- … hence no two such values share a keystore file … -/
+theorem exported_text_injective (k k' : KeystoreJ) (h : KsOk k) (h' : KsOk k') (e : render k = render k') : k = k' :=
+  render_injective k k' h h' e
+
+/-- … and end to end: the file `export` writes for ANY account bucket whose remark is valid UTF-8 reads back as the exported
+    value (hex strings, the two constants and uint32 counters are always within the types) -/
+theorem export_text_roundtrip (b : Bucket) (purpose coin : Nat) (k : KeystoreJ) (hp : purpose ≤ 4294967295)
+    (hc : coin ≤ 4294967295) (hr : Utf8Ok ((fetchRemark b).getD [])) (he : exportKs b purpose coin = .ok k) :
+    parseKeystore (render k) = some k := KsCodecL.export_text_roundtrip b purpose coin k hp hc hr he
+
 /-- for today's tables the table-driven account-row and BIP0044-record codecs ARE the format spec, on every input -/
 theorem records_model_eq_spec (t : Nat) (raw bs pub priv : Bytes) :
     serializeAccountRow t raw = Spec.KsCodec.accountRow t raw ∧
@@ -113,5 +130,18 @@ set_option maxRecDepth 8000 in
 example : ((exportKs demoBucket 44 297).toOption.map (fun k => (importView k 297).toOption.map (fun v => (v.params, v.cEntEnc, v.entEnc, v.externalHint)))) =
     some (some (demoParams, [12, 13], [9, 9], 5)) := by decide
 example : deserializeAccountRow (serializeAccountRow 0 [1, 2, 3]) = .ok (0, [1, 2, 3]) := by decide
+
+/-! the text level: a value with every kind of character in the remark reads back; the UTF-8 hypothesis is necessary -/
+def demoK : KeystoreJ :=
+  { remarks := [60, 34, 92, 10, 1, 195, 169, 226, 128, 168, 240, 159, 152, 128], version := 0, cipher := asc "Stream cipher",
+    entropyEnc := asc "0909", kdf := asc "scrypt", privParams := asc "00ff", cryptoKeyEntropyEnc := asc "0c0d",
+    purpose := 44, coin := 297, account := 1, externalChildNum := 4294967295, internalChildNum := 0 }
+set_option maxRecDepth 20000 in
+example : parseKeystore (render demoK) = some demoK := by decide
+example : KsOk demoK := by constructor <;> first | (unfold Utf8Ok; decide) | decide
+set_option maxRecDepth 20000 in
+example : parseKeystore (render { remarks := [255] }) ≠ some { remarks := [255] } := by decide
+set_option maxRecDepth 20000 in
+example : parseKeystore (render { demoK with version := 7, kdf := [] }) = some { demoK with version := 7, kdf := [] } := by decide
 
 end MW.Props.C04Codec
